@@ -22,13 +22,15 @@ pub open spec fn is_dir_m(ps: Map<PathKey, Node>, k: PathKey) -> bool { exists_m
 /// what stat(2) (following links) reports for entry `n`
 pub open spec fn meta_of_node(m: Metadata, n: Node, fsm: Map<Inode, FileState>) -> bool {
     &&& m.spec_kind() == n.tkind && mode_kind(m.spec_mode()) == n.tkind
-    &&& m.spec_rdev() == n.rdev && m.spec_dev() == n.dev
+    &&& m.spec_rdev() == n.rdev && m.spec_dev() == dev_num(n.inode)
     &&& m.spec_ino() == ino_num(n.inode)
     &&& (n.tkind == NodeKind::File ==> meta_of_file(m, fsm[n.inode]))
     &&& (n.tkind != NodeKind::File ==> mode_perm(m.spec_mode()) == n.perm)
 }
 /// st_ino of an inode (injective per device; we only need a function)
 pub uninterp spec fn ino_num(i: Inode) -> u64;
+/// st_dev of the filesystem holding an inode
+pub uninterp spec fn dev_num(i: Inode) -> u64;
 
 impl Path {
     pub uninterp spec fn key(&self) -> PathKey;
@@ -73,7 +75,7 @@ impl Path {
     { unimplemented!() }
     #[verifier::external_body]
     pub fn exists(&self, Tracked(w): Tracked<&World>) -> (r: bool)
-        ensures r == exists_m(w.paths, self.key()),
+        ensures r == exists_m(w.paths, self.key()), r ==> w.files.contains_key(w.paths[self.key()].inode),
     { unimplemented!() }
     #[verifier::external_body]
     pub fn is_dir(&self, Tracked(w): Tracked<&World>) -> (r: bool)
@@ -90,6 +92,7 @@ impl File {
                 Ok(f) => {
                     &&& final(w).faults == old(w).faults
                     &&& exists_m(old(w).paths, p.key()) && f.inode() == old(w).paths[p.key()].inode
+                    &&& old(w).files.contains_key(f.inode())
                     &&& !old(w).cursor.contains_key(f.id()) && final(w).cursor == old(w).cursor.insert(f.id(), 0)
                     &&& final(w).trace == old(w).trace.push(Event::Open(p.key()))
                 },
